@@ -391,6 +391,58 @@ def adjAccDelta (d : TDest) : TOp → Int
     | none => if p.rej then 0 else 1
     | some o => if o.rej && !p.rej then 1 else if !o.rej && p.rej then -1 else 0
 
+/-! ### the multipath set and its notification stream (`getMultiBestPath`, `Update.GetMultiBestPathDiff`) -/
+
+/-- what `Path.Compare` looks at in the harness's paths: LOCAL_PREF, carried in the upper part of
+    `rank` (the lower 32 bits order equal-cost paths by age, which `Compare` ignores) -/
+def TPath.cost (x : TPath) : Nat := x.rank / 4294967296
+
+/-- `getMultiBestPath`: the best path and the run of paths after it that compare equal to it -/
+def multiBest : List TPath → List TPath
+  | [] => []
+  | b :: r => b :: r.takeWhile (fun x => x.cost == b.cost)
+
+/-- `n.EqualBySourceAndPathID(o)` -/
+def TPath.keyEq (a b : TPath) : Bool := a.src == b.src && a.rid == b.rid
+
+/-- `n.Equal(o)` for two paths of one source: same attributes (here: same LOCAL_PREF) -/
+def TPath.attrEq (a b : TPath) : Bool := a.cost == b.cost
+
+/-- the `update` list of `GetMultiBestPathDiff`: a new member is announced unless the FIRST old
+    member with its (source, path-id) has the same attributes -/
+def mpUpdate (old new : List TPath) : List TPath :=
+  new.filter (fun n => match old.find? (fun o => n.keyEq o) with
+    | none => true
+    | some o => !n.attrEq o)
+
+/-- the `withdraw` list: old members whose `matchedOld` flag stayed false.  A new member flags the
+    first old member with its key; `seen` = the old members before the current one. -/
+def mpWithdrawFrom (new : List TPath) : List TPath → List TPath → List TPath
+  | _, [] => []
+  | seen, o :: r =>
+    let first := !(seen.any (fun s => s.keyEq o))
+    let matched := first && new.any (fun n => n.keyEq o)
+    (if matched then [] else [o]) ++ mpWithdrawFrom new (seen ++ [o]) r
+
+def mpWithdraw (old new : List TPath) : List TPath := mpWithdrawFrom new [] old
+
+/-- `Update.GetMultiBestPathDiff` on the path lists before and after one `Calculate` -/
+def mpDiff (oldList newList : List TPath) : List TPath × List TPath :=
+  (mpUpdate (multiBest oldList) (multiBest newList), mpWithdraw (multiBest oldList) (multiBest newList))
+
+/-- a consumer of the multipath stream (FIB, watcher): (source, path-id) → attributes, for one prefix -/
+abbrev MpConsumer := Nat × Nat → Option Nat
+
+/-- applying one notification: the withdrawals remove their key, the updates set theirs -/
+def mpApply (c : MpConsumer) (d : List TPath × List TPath) : MpConsumer :=
+  fun k => match d.1.find? (fun n => (n.src, n.rid) == k) with
+    | some n => some n.cost
+    | none => if d.2.any (fun o => (o.src, o.rid) == k) then none else c k
+
+/-- what a consumer should hold for a multipath set -/
+def mpView (m : List TPath) : MpConsumer :=
+  fun k => (m.find? (fun n => (n.src, n.rid) == k)).map (·.cost)
+
 /-! ### partial operations of a multi-family Adj-RIB-In (each works on ONE table of the AdjRib) -/
 
 /-- `walkActive` with an in-place rewrite of every destination (`AdjRib.StaleAll`) -/
